@@ -152,7 +152,18 @@ Ltac head_scrut t :=
 
 Ltac norm := rewrite ?andb_true_r, ?andb_false_r; cbn [rbind andb negb].
 
-Ltac kill := try (intros; discriminate).
+(* fewer than 128 bytes never decode *)
+Lemma dirent_decode_short_not_ok : forall strict bs e, dirent_decode_short strict bs <> Ok e.
+Proof.
+  intros strict bs e. unfold dirent_decode_short. cbv zeta.
+  repeat match goal with
+         | |- (if ?c then _ else _) <> _ => destruct c
+         | |- (match ?x with _ => _ end) <> _ => destruct x
+         end; discriminate.
+Qed.
+
+Ltac kill := try (intros; discriminate);
+  try (let Hs := fresh in intros Hs; exfalso; exact (dirent_decode_short_not_ok _ _ _ Hs)).
 
 (* one step along the strict run (left of the arrow) *)
 Ltac step :=
@@ -548,8 +559,9 @@ Qed.
 Lemma dirent_decode_len : forall v st bs e, dirent_decode v st bs = Ok e -> 128 <= lenN bs.
 Proof.
   intros v st bs e. unfold dirent_decode.
-  destruct (lenN bs <? DIR_ENTRY_LEN) eqn:E; kill. intros _.
-  apply N.ltb_ge in E. exact E.
+  destruct (lenN bs <? DIR_ENTRY_LEN) eqn:E.
+  { intros H. exfalso. exact (dirent_decode_short_not_ok _ _ _ H). }
+  intros _. apply N.ltb_ge in E. exact E.
 Qed.
 
 Lemma header_decode_len : forall st bs h, header_decode st bs = Ok h -> 512 <= lenN bs.
